@@ -45,6 +45,11 @@ def run(chk, tier):
     chk.floor("R-LINKFREE", "release sites", nlf, 14)
     chk.rule("R-FLAGS", "topology flag words of hwloc_topology_set_flags")
     flags.run(chk, P, "C01", effects=E)
+    chk.rule("R-GPNEXT", "an object identifier converted from input keeps the allocator ahead of it: explored at the boundary (topology->next_gp_index == K, imported gp_index == K), "
+             "every exit after the store leaves next_gp_index > K -- otherwise the next object created gets a duplicate gp_index")
+    import gpnext
+    ngp = gpnext.run(chk, P, ["topology-xml.c"])
+    chk.floor("R-GPNEXT", "imported identifier stores", ngp, 1)
     chk.decided += ["indexes into counted array fields stay below the count in every function that the bound analysis covers (19 functions frozen out of scope)",
                     'no pointer is used (or released again) after its release in any library function',
                     'type-specific attributes are accessed only under the matching object type in every self-discriminating function of the library',
